@@ -21,6 +21,7 @@ var (
 	RepoDir     = envOr("VERIF_REPO", "/repo")
 	HarnessDir  = envOr("VERIF_HARNESS", Root+"/harness")
 	EvidenceDir = envOr("VERIF_EVIDENCE", Root+"/evidence")
+	SpecsDir    = envOr("VERIF_SPECS", Root+"/specs")
 )
 
 func envOr(k, d string) string {
@@ -106,7 +107,7 @@ func NewRun(id, tier string, seed int64) *Run {
 }
 
 // SpecDir is where the TLA+ modules live.
-func (r *Run) SpecDir() string { return filepath.Join(Root, "specs") }
+func (r *Run) SpecDir() string { return SpecsDir }
 
 // Infra records trouble of the machinery itself (exit 2, never a violation).
 func (r *Run) Infra(msg string) {
